@@ -56,6 +56,21 @@ def gen_selection(rng, n, tier):
         if rng.random() < 0.15:
             for p in [q for q, v in list(spec.items()) if isinstance(v, str)][:2]:
                 spec[os.path.dirname(p) + "/hl_" + os.path.basename(p)] = ["hard", os.path.basename(p)]
+        # directories reachable by more than one route: links to a directory elsewhere in the tree (never to an ancestor
+        # of the link, so the walk is finite); every route designates its own entries
+        dir_links = False
+        if kind != "template" and rng.random() < 0.12:
+            dirs = [q for q, v in spec.items() if v is None]
+            for _ in range(rng.randint(1, 2)):
+                target, parent = rng.choice(dirs), rng.choice(dirs)
+                if target in roots or parent == target or parent.startswith(target + "/"):
+                    continue
+                if any(v is not None and not isinstance(v, str) for q, v in spec.items() if q.startswith(target + "/")):
+                    continue   # (no links below the target: keeps the walk obviously finite)
+                lname = parent + "/" + rng.choice(["lnk", "alpha", "omega", ".hl"])
+                if lname not in spec:
+                    spec[lname] = ["link", os.path.relpath(target, parent)]
+                    dir_links = True
         mode = rng.choice(["name", "path", "directory"])
         explicit = []
         if mode != "directory" and rng.random() < 0.3:
@@ -77,7 +92,7 @@ def gen_selection(rng, n, tier):
                "hidden": rng.random() < 0.4, "filter_kind": kind, "filter": expr, "invert": rng.random() < 0.35,
                "strategy": "stop", "answers": [], "plan": {}, "order": {}, "sorted": False, "invert_sort": False,
                "dry": True, "answer_style": 0, "spelling": rng.choice(["abs", "abs", "rel", "dotted"]),
-               "hidden_parent": rng.random() < 0.15}
+               "hidden_parent": rng.random() < 0.15, "dir_links": dir_links}
 
 
 def impl_selection(case):
@@ -104,6 +119,7 @@ def impl_selection(case):
             if case["invert"]:
                 extra.append("-fi")
             before = common.snapshot(root)
+            walked = walk_follow(rootp, case["roots"]) if case.get("dir_links") else None
             with fsrun.Observer(root, None) as obs:
                 out, err, rc = common.run_cli(extra + args, cwd=rootp)
             after = common.snapshot(root)
@@ -112,10 +128,33 @@ def impl_selection(case):
         considered = sorted([d, rel] for d, rel, g in obs.gens)
         count = next((l.split(" ")[0] for l in out.split("\n") if "considered for renaming" in l), "?")
         return {"rc": rc, "considered": considered, "count": count, "unchanged": before == after, "err": err.strip()[-200:] if rc else "",
+                "walked": walked,
                 "before": {p: (None if v is None else list(v)) for p, v in before.items()}}
 
 
-def spec_gathered(case, before):
+def walk_follow(rootp, roots, limit=12):
+    """every descendant of each root by every route (directory links are entered like directories), as
+    [root, relative path, is-a-directory]; None when the walk does not end (a link cycle)"""
+    out = []
+
+    def go(r, rel, depth):
+        if depth > limit:
+            raise RecursionError
+        for name in sorted(os.listdir(os.path.join(rootp, r, rel))):
+            sub = os.path.join(rel, name) if rel else name
+            is_dir = os.path.isdir(os.path.join(rootp, r, sub))
+            out.append([r, sub, is_dir])
+            if is_dir:
+                go(r, sub, depth + 1)
+    try:
+        for r in roots:
+            go(r, "", 0)
+    except RecursionError:
+        return None
+    return out
+
+
+def spec_gathered(case, before, walked=None):
     """the designated entries, straight from the property text"""
     out = []
     mode = case["mode"]
@@ -124,7 +163,9 @@ def spec_gathered(case, before):
         if mode == "directory" and not case["recursive"]:
             out.append([os.path.dirname(r) or ".", os.path.basename(r)])
             continue
-        for p, v in before.items():
+        entries = ([(r + "/" + rel, None if d else "x") for rr, rel, d in walked if rr == r] if walked is not None
+                   else list(before.items()))
+        for p, v in entries:
             if not p.startswith(r + "/"):
                 continue
             rel = p[len(r) + 1:]
@@ -181,10 +222,10 @@ def oracle_selection(case, obs):
     if any(isinstance(v, (list, tuple)) for v in case["spec"].values()):
         dirlinks = [p for p, v in case["spec"].items() if isinstance(v, (list, tuple))
                     and case["spec"].get(os.path.normpath(os.path.join(os.path.dirname(p), v[1])), 0) is None]
-        if dirlinks:
+        if dirlinks and obs.get("walked") is None:
             return None
     expected = []
-    for d, rel in spec_gathered(case, obs["before"]):
+    for d, rel in spec_gathered(case, obs["before"], obs.get("walked")):
         ok = passes_filter(case, d, rel, obs["before"])
         if ok is None:
             return None
@@ -210,8 +251,8 @@ def lines_selection(case):
 
 def compare_selection(case, obs, pred):
     """the model's gatherer (before filtering) must yield the same multiset as the run considered when no filter is given"""
-    if case["filter_kind"] is not None or obs["rc"] != 0:
-        return True
+    if case["filter_kind"] is not None or obs["rc"] != 0 or case.get("dir_links"):
+        return True   # (the traversal model does not enter directory links: those trees are judged by the oracle's own walk)
     entries = []
     for i, (p, v) in enumerate(sorted(obs["before"].items())):
         kind = "d" if v is None else ("L" + enc_str(v[1]) if v[0] == "link" else "f")
